@@ -318,6 +318,8 @@ class Ctx:
     # -- decision ------------------------------------------------------------------------------
     def finish(self, audit: dict) -> int:
         wall = time.time() - self.t0
+        # every registered non-trivial case was evaluated: a module that counted coarser units must not under-report
+        self.evaluations = max(self.evaluations, len(self.nontrivial))
         open_keys = {f["key"]: f for f in self.open_findings}
         known_hit, unlisted = {}, []
         for f in self.failures:
